@@ -872,6 +872,8 @@ def judge (ops impl : List String) : Bool × String :=
   | k :: rest =>
     let kw := words k
     if kw = ["kind", "census"] then judgeCensus impl else
+    if kw.take 2 = ["kind", "desc-selfcheck-failed"] then
+      (false, "[selfcheck] the generator produced a fixture description that does not survive the ops file") else
     if kw.take 2 = ["kind", "fxobj"] then judgeFxobj (kw.getD 2 "") rest impl else
     let fixture := kw.take 2 = ["kind", "fixture"]
     let checkNames := !(fixture ∧ kw.getD 2 "" = "pdb")
